@@ -150,6 +150,9 @@ type C17Case struct {
 	// UsedExecutor: the second run is turned over by an executor object that served an unrelated population (other options
 	// object, other size) before: an executor is a stateless tool between turnovers
 	UsedExecutor bool `json:"second_run_executor_object_used_before,omitempty"`
+	// SameStart: both runs (and the unrelated work of the same constructor kind) spawn from one and the same start genome
+	// object: spawning reads the start genome, it does not own it
+	SameStart bool `json:"both_runs_from_one_start_genome_object,omitempty"`
 }
 
 // deriveOptions: a by-value copy of a used options object with every exported field set from want.
@@ -214,12 +217,18 @@ func genC17() *rapid.Generator[C17Case] {
 			c.Others = append(c.Others, other.Draw(t, "unrelated"))
 		}
 		c.UsedExecutor = rapid.IntRange(0, 3).Draw(t, "used executor") == 0
+		c.SameStart = rapid.IntRange(0, 3).Draw(t, "same start object") == 0
 		return c
 	})
 }
 
 func CheckC17(c C17Case, rec *Rec) error {
 	sc := c.Sc
+	if c.SameStart && sc.Ctor == "spawn" {
+		sharedStartGenome = sc.Start.Build()
+		defer func() { sharedStartGenome = nil }()
+		rec.Class("both runs spawn from one start genome object")
+	}
 	d1, w1, grew, err1 := evolve(sc)
 	if err1 == nil && d1 == "" {
 		rec.Class("skipped: constructor outside the domain (gene-less random genome / failing turnover before the checkpoint)")
@@ -227,7 +236,10 @@ func CheckC17(c C17Case, rec *Rec) error {
 	}
 	interfere(sc.Seed)
 	for _, o := range c.Others {
+		keep := sharedStartGenome
+		sharedStartGenome = nil
 		_, _, _, _ = evolve(o)
+		sharedStartGenome = keep
 		rec.Class("generated unrelated scenario between the runs")
 	}
 	if c.Derived {
